@@ -157,7 +157,8 @@ def expectedTarget (proxy : Bool) (script : List String) : Option (Bytes × Byte
       (if u.pathOriginal.isEmpty then [47] else u.pathOriginal) ++
         (if parsed then (if !qa.isEmpty then 63 :: appendArgs qa else []) else if !u.query.isEmpty then 63 :: u.query else [])
     else u.requestURIp parsed qa
-  pure (target, u.host)
+  -- /repo 910b0dd: the target is written through `appendRequestLinePart` (a SP left in it - `http://h/a?x y` - arrives as `%20`)
+  pure (HW.reqLinePart target, u.host)
 
 def reqWriteHandle (expect : Option (Bytes × Bytes)) (script impl : List String) : Option Result := do
   match impl with
